@@ -217,3 +217,87 @@ Qed.
 (* the guard of ring *)
 Lemma ring_rejects_spec N o k : ring_rejects N o k = true <-> N < 3.
 Proof. unfold ring_rejects. lia. Qed.
+
+(* ------------------------------------------------------------------ vertex umbrellas *)
+Require Import MV.C14.ProofsFan.
+
+Lemma fan_links K v n p : In (n, p) (links (fan K) v) <->
+  exists i, 0 <= i < K /\ ((v = 0 /\ n = i + 1 /\ p = i + 2) \/ (v = i + 1 /\ n = i + 2 /\ p = 0) \/ (v = i + 2 /\ n = 0 /\ p = i + 1)).
+Proof.
+  rewrite links_In. split.
+  - intros [f [Hf H]]. apply fan_In in Hf as [i [Hi ->]]. apply tri_corner in H. exists i. split; auto.
+  - intros [i [Hi H]]. exists [0; i + 1; i + 2]. split; [apply fan_In; exists i; auto|]. apply tri_corner. exact H.
+Qed.
+
+Lemma fan_vertex_manifold K : 1 <= K -> vertex_manifold (K + 2) (fan K).
+Proof.
+  intros HK v Hv. destruct (Z.eq_dec v 0) as [->|V0].
+  - (* the apex: the K corners in order *)
+    apply (one_fan_intro _ _ (map (fun i => (i + 1, i + 2)) (zrange K))); [apply fan_oriented | | |].
+    + apply NoDup_pairs_fst. cbn [fst]. intros; lia.
+    + intros [n p]. rewrite fan_links, in_map_iff. split.
+      * intros [i [E Hi]]. apply In_zrange in Hi. pinj E. exists i. split; [lia|]. left. lia.
+      * intros [i [Hi H]]. exists i. split; [|apply In_zrange; auto]. split_or H; destruct H as [? [? ?]]; try lia. f_equal; lia.
+    + apply chained_map_zrange. cbn [fst snd]. intros; lia.
+  - (* a rim vertex: at most two corners *)
+    apply (one_fan_intro _ _ ((if v <=? K then [(v + 1, 0)] else []) ++ (if 2 <=? v then [(0, v - 1)] else [])));
+      [apply fan_oriented | | |].
+    + destruct (v <=? K), (2 <=? v); cbn [app]; repeat constructor; cbn [In]; intros H; split_or H; pinj H; lia.
+    + intros [n p]. rewrite fan_links. split.
+      * intros H. apply in_app_iff in H as [H|H].
+        -- destruct (v <=? K) eqn:E1; [|destruct H]. destruct H as [H|[]]. pinj H.
+           exists (v - 1). split; [lia|]. right. left. lia.
+        -- destruct (2 <=? v) eqn:E2; [|destruct H]. destruct H as [H|[]]. pinj H.
+           exists (v - 2). split; [lia|]. right. right. lia.
+      * intros [i [Hi H]]. split_or H; destruct H as [? [? ?]]; try lia; subst.
+        -- replace (i + 1 <=? K) with true by lia. left. f_equal; lia.
+        -- replace (2 <=? i + 2) with true by lia. apply in_app_iff. right. left. f_equal; lia.
+    + destruct (v <=? K), (2 <=? v); cbn [app chained fst snd]; auto.
+Qed.
+
+Lemma cfan_links K v n p : In (n, p) (links (cfan K) v) <->
+  (exists i, 0 <= i < K - 1 /\ ((v = 0 /\ n = i + 1 /\ p = i + 2) \/ (v = i + 1 /\ n = i + 2 /\ p = 0) \/ (v = i + 2 /\ n = 0 /\ p = i + 1)))
+  \/ (v = 0 /\ n = K /\ p = 1) \/ (v = K /\ n = 1 /\ p = 0) \/ (v = 1 /\ n = 0 /\ p = K).
+Proof.
+  unfold cfan, links. rewrite flat_map_app, in_app_iff. fold (links (fan (K - 1)) v). rewrite fan_links.
+  cbn [flat_map]. rewrite app_nil_r, tri_corner. tauto.
+Qed.
+
+Lemma cfan_vertex_manifold K : 3 <= K -> vertex_manifold (K + 1) (cfan K).
+Proof.
+  intros HK v Hv. destruct (Z.eq_dec v 0) as [->|V0].
+  - apply (one_fan_intro _ _ (map (fun i => (i + 1, (i + 1) mod K + 1)) (zrange K))); [apply cfan_oriented; auto | | |].
+    + apply NoDup_pairs_fst. cbn [fst]. intros; lia.
+    + intros [n p]. rewrite cfan_links, in_map_iff. split.
+      * intros [i [E Hi]]. apply In_zrange in Hi. pinj E.
+        destruct (mod_succ_cases i K Hi) as [[Em L]|[Em L]]; rewrite Em in *.
+        -- left. exists i. split; [lia|]. left. lia.
+        -- right. left. lia.
+      * intros [[i [Hi H]]|H].
+        -- exists i. split; [|apply In_zrange; lia]. split_or H; destruct H as [? [? ?]]; try lia.
+           rewrite Z.mod_small by lia. f_equal; lia.
+        -- exists (K - 1). split; [|apply In_zrange; lia]. split_or H; destruct H as [? [? ?]]; try lia.
+           replace (K - 1 + 1) with K by lia. rewrite Z.mod_same by lia. f_equal; lia.
+    + apply chained_map_zrange. cbn [fst snd]. intros t Ht. rewrite Z.mod_small by lia. lia.
+  - (* rim vertex v in 1..K: the triangle after it and the triangle before it *)
+    apply (one_fan_intro _ _ [(v mod K + 1, 0); (0, (v - 2) mod K + 1)]); [apply cfan_oriented; auto | | |].
+    + repeat constructor; cbn [In]; intros H; split_or H; pinj H.
+      pose proof (Z.mod_pos_bound v K ltac:(lia)). lia.
+    + intros [n p]. rewrite cfan_links. cbn [In].
+      assert (E1 : v mod K + 1 = if v =? K then 1 else v + 1).
+      { destruct (v =? K) eqn:E; [replace v with K by lia; rewrite Z.mod_same by lia; lia | rewrite Z.mod_small by lia; lia]. }
+      assert (E2 : (v - 2) mod K + 1 = if v =? 1 then K else v - 1).
+      { destruct (v =? 1) eqn:E.
+        - replace (v - 2) with (K - 1 + (-1) * K) by lia. rewrite Z.mod_add by lia. rewrite Z.mod_small by lia. lia.
+        - rewrite Z.mod_small by lia. lia. }
+      rewrite E1, E2. split.
+      * intros H. split_or H; pinj H; subst.
+        -- destruct (v =? K) eqn:E; [right; right; left; lia | left; exists (v - 1); split; [lia|]; right; left; lia].
+        -- destruct (v =? 1) eqn:E; [right; right; right; lia | left; exists (v - 2); split; [lia|]; right; right; lia].
+      * intros [[i [Hi H]]|H]; split_or H; destruct H as [? [? ?]]; try lia; subst.
+        -- left. replace (i + 1 =? K) with false by lia. f_equal; lia.
+        -- right. left. replace (i + 2 =? 1) with false by lia. f_equal; lia.
+        -- left. rewrite Z.eqb_refl. reflexivity.
+        -- right. left. cbn [Z.eqb]. reflexivity.
+    + cbn [chained fst snd]. auto.
+Qed.
